@@ -1540,6 +1540,45 @@ def partials_to_calls(tree):
     return count[0]
 
 
+def filled_arrays_to_fromiter(tree):
+    """N46  `A = np.empty(len(F), dtype=D)` + `for i, x in enumerate(F): A[i] = E(x)`  ->  `A = np.fromiter((E(x) for x in F), dtype=D)`"""
+    count = [0]
+    for par in list(ast.walk(tree)):
+        for fld in ('body', 'orelse', 'finalbody'):
+            blk = getattr(par, fld, None)
+            if not isinstance(blk, list):
+                continue
+            k = 0
+            while k + 1 < len(blk):
+                a, l = blk[k], blk[k + 1]
+                k += 1
+                if not (isinstance(a, ast.Assign) and len(a.targets) == 1 and isinstance(a.targets[0], ast.Name) and isinstance(a.value, ast.Call)
+                        and ast.unparse(a.value.func) in ('np.empty', 'np.zeros', 'numpy.empty', 'numpy.zeros') and len(a.value.args) >= 1):
+                    continue
+                n0 = a.value.args[0]
+                if not (isinstance(n0, ast.Call) and isinstance(n0.func, ast.Name) and n0.func.id == 'len' and len(n0.args) == 1):
+                    continue
+                F = ast.unparse(n0.args[0])
+                if not (isinstance(l, ast.For) and not l.orelse and isinstance(l.target, ast.Tuple) and len(l.target.elts) == 2 and isinstance(l.target.elts[0], ast.Name)
+                        and isinstance(l.iter, ast.Call) and isinstance(l.iter.func, ast.Name) and l.iter.func.id == 'enumerate' and len(l.iter.args) == 1 and ast.unparse(l.iter.args[0]) == F
+                        and len(l.body) == 1 and isinstance(l.body[0], ast.Assign) and len(l.body[0].targets) == 1):
+                    continue
+                A, i = a.targets[0].id, l.target.elts[0].id
+                t = l.body[0].targets[0]
+                if not (isinstance(t, ast.Subscript) and isinstance(t.value, ast.Name) and t.value.id == A and isinstance(t.slice, ast.Name) and t.slice.id == i):
+                    continue
+                E = l.body[0].value
+                if any(isinstance(n, ast.Name) and n.id in (A, i) for n in ast.walk(E)):
+                    continue
+                dtype = [kw for kw in a.value.keywords if kw.arg == 'dtype'] or ([ast.keyword(arg='dtype', value=a.value.args[1])] if len(a.value.args) > 1 else [])
+                ge = ast.GeneratorExp(elt=E, generators=[ast.comprehension(target=l.target.elts[1], iter=l.iter.args[0], ifs=[], is_async=0)])
+                a.value = ast.Call(func=ast.Attribute(value=ast.Name(id='np', ctx=ast.Load()), attr='fromiter', ctx=ast.Load()), args=[ge], keywords=dtype)
+                ast.fix_missing_locations(a)
+                del blk[k]
+                count[0] += 1
+    return count[0]
+
+
 def merge_twin_branches(tree):
     """N30: `if c: T(A) else: T(B)` where both arms are the same single statement up to one sub-expression (the same call / assignment with
     one differing argument or value) -> `T(A if c else B)`."""
@@ -1624,6 +1663,7 @@ def normalize(tree):
     n = Normalizer()
     tree = n.visit(tree)
     n.counts['iterate_self'] = iterate_self(tree)
+    n.counts['filled_arrays'] = filled_arrays_to_fromiter(tree)
     n.counts['partials'] = partials_to_calls(tree)
     n.counts['zip_of_maps'] = zip_of_maps(tree)
     n.counts['generators_to_loops'] = generators_to_loops(tree)
